@@ -79,7 +79,7 @@ M = [
     ('drop-failed-status', 'C07', C, "                processed[mibname] = statusFailed.setOptions(error=exc)\n\n                failedMibs[mibname] = exc\n                del parsedMibs[mibname]", "                failedMibs[mibname] = exc\n                del parsedMibs[mibname]"),
     ('compiled-before-put', 'C07', C, "                if options.get('writeMibs', True):\n                    self._writer.putData(\n                        mibname, mibData, dryRun=options.get('dryRun')\n                    )\n", "                processed[mibname] = statusCompiled\n                if options.get('writeMibs', True):\n                    self._writer.putData(\n                        mibname, mibData, dryRun=options.get('dryRun')\n                    )\n"),
     ('handler-reraises', 'C07', C, "                debug.logger & debug.flagCompiler and debug.logger('error from %s: %s' % (self._codegen, exc))\n", "                debug.logger & debug.flagCompiler and debug.logger('error from %s: %s' % (self._codegen, exc))\n                if options.get('strict'):\n                    raise\n"),
-    ('stale-failed', 'C07', C, "                            processed.pop(mibname, None)\n", ""),
+    ('stale-failed', 'C07', C, "                                processed.pop(foundName, None)\n", ""),
     ('raise-valueerror', 'C07', I, "raise error.PySmiSemanticError('Duplicate module identity')", "raise ValueError('Duplicate module identity')"),
     # ---- C08
     ('no-break', 'C08', C, "                            mibInfo.name, mibname, fileInfo.path, ', '.join(mibInfo.imported) or '<none>'))\n\n                    break", "                            mibInfo.name, mibname, fileInfo.path, ', '.join(mibInfo.imported) or '<none>'))\n"),
@@ -97,7 +97,7 @@ M = [
     ('untouched-no-break', 'C10', C, "                    del parsedMibs[mibname]\n                    processed[mibname] = statusUntouched\n                    break", "                    del parsedMibs[mibname]\n                    processed[mibname] = statusUntouched\n                    continue"),
     ('stub-honours-rebuild', 'C10', 'pysmi/searcher/stub.py', "        if mibname in self._mibnames:", "        if not rebuild and mibname in self._mibnames:"),
     ('stat-index', 'C10', 'pysmi/searcher/anyfile.py', "fileTime = os.stat(f)[8]", "fileTime = os.stat(f)[7]"),
-    ('nodeps-always', 'C10', C, "                if options.get('noDeps') and mibname not in canonicalMibNames:\n                    debug.logger & debug.flagCompiler and debug.logger(\n                        'excluding imported MIB %s from code generation' % mibname)", "                if mibname not in canonicalMibNames:\n                    debug.logger & debug.flagCompiler and debug.logger(\n                        'excluding imported MIB %s from code generation' % mibname)"),
+    ('nodeps-always', 'C10', C, "                if (options.get('noDeps') and mibname not in canonicalMibNames and\n                        mibname not in mibnames):\n                    debug.logger & debug.flagCompiler and debug.logger(\n                        'excluding imported MIB %s from code generation' % mibname)", "                if (mibname not in canonicalMibNames and\n                        mibname not in mibnames):\n                    debug.logger & debug.flagCompiler and debug.logger(\n                        'excluding imported MIB %s from code generation' % mibname)"),
     # ---- C11
     ('lexer-valueerror', 'C11', L, "raise error.PySmiLexerError(\"%s is forbidden\" % t.value, lineno=t.lineno)", "raise ValueError(\"%s is forbidden\" % t.value)"),
     ('no-lineno', 'C11', L, "raise error.PySmiLexerError(\"%s is forbidden\" % t.value, lineno=t.lineno)", "raise error.PySmiLexerError(\"%s is forbidden\" % t.value)"),
@@ -184,6 +184,26 @@ M = [
     ('writeMibs-negated-c09', 'C09', C, "if options.get('writeMibs', True):", "if not options.get('writeMibs', True):"),
     ('index-args-swapped', 'C18', C, "                self.indexFile,\n                self._codegen.genIndex(\n                    processedMibs,\n                    comments=comments,\n                    old_index_data=self._writer.getData(self.indexFile)\n                ),", "                self._codegen.genIndex(\n                    processedMibs,\n                    comments=comments,\n                    old_index_data=self._writer.getData(self.indexFile)\n                ),\n                self.indexFile,"),
     ('index-ignoreErrors-negated', 'C18', C, "            if options.get('ignoreErrors'):\n                return\n\n            if hasattr(exc, 'with_traceback'):", "            if not options.get('ignoreErrors'):\n                return\n\n            if hasattr(exc, 'with_traceback'):"),
+    # ---- round 4: typestate analysis of compile() and the rules added after the round-4 seeds (different sites)
+    ('ts-compiled-overwrites-borrowed', 'C19', C, "                if mibname not in processed:\n                    processed[mibname] = statusCompiled.setOptions(", "                if True:\n                    processed[mibname] = statusCompiled.setOptions("),
+    ('ts-fresh-module-still-generated', 'C10', C, "                    del parsedMibs[mibname]\n                    processed[mibname] = statusUntouched\n                    break\n\n                except error.PySmiError:\n                    exc_class, exc, tb = sys.exc_info()\n                    exc.searcher = searcher\n                    exc.mibname = mibname\n                    exc.msg += ' at MIB %s' % mibname\n                    debug.logger & debug.flagCompiler and debug.logger('error from %s: %s' % (searcher, exc))\n                    continue\n", "                    processed[mibname] = statusUntouched\n                    break\n\n                except error.PySmiError:\n                    exc_class, exc, tb = sys.exc_info()\n                    exc.searcher = searcher\n                    exc.mibname = mibname\n                    exc.msg += ' at MIB %s' % mibname\n                    debug.logger & debug.flagCompiler and debug.logger('error from %s: %s' % (searcher, exc))\n                    continue\n"),
+    ('ts-missing-not-in-failed-map', 'C09', C, "                if mibname not in failedMibs:\n                    failedMibs[mibname] = exc\n\n                if mibname not in processed:\n                    processed[mibname] = statusMissing\n", "                if mibname not in processed:\n                    processed[mibname] = statusMissing\n"),
+    ('ts-built-under-file-name', 'C07', C, "                builtMibs[mibname] = fileInfo, mibInfo, mibData\n                del parsedMibs[mibname]\n", "                builtMibs[fileInfo.name] = fileInfo, mibInfo, mibData\n                del parsedMibs[mibname]\n"),
+    ('ts-symboltable-under-requested-name', 'C07', C, "symbolTableMap[mibInfo.name] = symbolTable", "symbolTableMap[mibname] = symbolTable"),
+    ('searcher-skipped-when-failed-before', 'C10', C, "            for searcher in self._searchers:\n                try:\n                    searcher.fileExists(mibname, fileInfo.mtime, rebuild=options.get('rebuild'))\n\n                except error.PySmiFileNotFoundError:\n                    debug.logger & debug.flagCompiler and debug.logger(\n                        'no compiled MIB %s available through %s' % (mibname, searcher))\n                    continue\n\n                except error.PySmiFileNotModifiedError:\n                    debug.logger & debug.flagCompiler and debug.logger(\n                        'will be using existing compiled MIB %s found by %s' % (mibname, searcher))\n                    del parsedMibs[mibname]", "            for searcher in self._searchers:\n                if getattr(searcher, 'broken', False):\n                    continue\n                try:\n                    searcher.fileExists(mibname, fileInfo.mtime, rebuild=options.get('rebuild'))\n\n                except error.PySmiFileNotFoundError:\n                    debug.logger & debug.flagCompiler and debug.logger(\n                        'no compiled MIB %s available through %s' % (mibname, searcher))\n                    continue\n\n                except error.PySmiFileNotModifiedError:\n                    debug.logger & debug.flagCompiler and debug.logger(\n                        'will be using existing compiled MIB %s found by %s' % (mibname, searcher))\n                    del parsedMibs[mibname]"),
+    ('pyfile-empty-text-not-stored', 'C13', WP, "        if dryRun:\n            debug.logger & debug.flagWriter and debug.logger('dry run mode')\n            return\n", "        if dryRun:\n            debug.logger & debug.flagWriter and debug.logger('dry run mode')\n            return\n\n        if not data:\n            return\n"),
+    ('p-error-first-word', 'C11', P, '"Bad grammar near token type %s, value %s" % (p.type, p.value)', '"Bad grammar near token type %s, value %s" % (p.type, str(p.value).split()[0])'),
+    ('lexer-trusts-cached-table', 'C17', L, "                                 outputdir=self._tempdir,\n                                 debuglog=debuglogger,\n                                 errorlog=logger)", "                                 outputdir=self._tempdir,\n                                 optimize=bool(self._tempdir),\n                                 debuglog=debuglogger,\n                                 errorlog=logger)"),
+    ('symboltable-kept-when-empty', 'C12', I, "        self.symbolTable = symbolTable\n        self._rows.clear()", "        if symbolTable:\n            self.symbolTable = symbolTable\n        self._rows.clear()"),
+    ('ir-names-lowercased', 'C03', I, "        return symbol.replace('-', '_')\n\n    def prepData(self, pdata):\n        data = []\n        for el in pdata:\n            if not isinstance(el, tuple):\n                data.append(el)\n            elif len(el) == 1:\n                data.append(el[0])\n            else:\n                data.append(\n                    self.handlersTable[el[0]](self, self.prepData(el[1:]))\n                )\n        return data\n\n    def genImports", "        return symbol.replace('-', '_').replace('.', '_')\n\n    def prepData(self, pdata):\n        data = []\n        for el in pdata:\n            if not isinstance(el, tuple):\n                data.append(el)\n            elif len(el) == 1:\n                data.append(el[0])\n            else:\n                data.append(\n                    self.handlersTable[el[0]](self, self.prepData(el[1:]))\n                )\n        return data\n\n    def genImports"),
+    ('range-min-max-swapped-in-template', 'C05', T, "ValueRangeConstraint({{ range['min'] }}, {{ range['max'] }}),", "ValueRangeConstraint({{ range['max'] }}, {{ range['min'] }}),"),
+    ('augmenting-row-registered-under-target', 'C06', T, "{{ definition['augmention']['object'] }}.registerAugmentions(\n    (\"{{ mib['meta']['module'] }}\",", "{{ definition['augmention']['object'] }}.registerAugmentions(\n    (\"{{ definition['augmention']['object'] }}\","),
+    ('action-value-from-parser-object', 'C02', P, "        \"\"\"Status : LOWERCASE_IDENTIFIER\"\"\"\n        p[0] = ('Status', p[1])", "        \"\"\"Status : LOWERCASE_IDENTIFIER\"\"\"\n        p[0] = self.statusNode or ('Status', p[1])"),
+    ('symtable-parentoids-not-reset-c07', 'C07', S, "        self._parentOids.clear()\n", ""),
+    ('setoptions-on-shared-constant-c12', 'C12', C, "        n = self.__class__(self)\n", "        n = self\n"),
+    ('reader-text-mode-c19', 'C19', 'pysmi/reader/localfile.py', "open(f, mode='rb')", "open(f, mode='r')"),
+    ('reader-mtime-float-c10', 'C10', 'pysmi/reader/localfile.py', "mtime = os.stat(f)[8]", "mtime = os.stat(f).st_mtime"),
+    ('writer-temp-outside-destination-c20', 'C20', WL, "tempfile.mkstemp(dir=self._path)", "tempfile.mkstemp()"),
 ]
 
 
